@@ -141,65 +141,39 @@ Lemma filter_links_sublist : forall k v ls, exists keep : link -> bool,
 Proof. intros k v ls. exists (link_matches k v). split; [reflexivity | apply link_matches_spec]. Qed.
 
 (* ------------------------------------------------------------------ WKCResource.render_get with its list of Uri-Query options *)
-Lemma eval_kind_own : forall k v l, eval_kind (kind_of k) k v l = Ok (link_matches k v l).
+Lemma fold_filter_forallb : forall (rel : list (string * string)) (ls : list link),
+  fold_right (fun (kv : string * string) acc => filter_links (fst kv) (snd kv) acc) ls rel =
+  filter (fun l => forallb (fun kv : string * string => link_matches (fst kv) (snd kv) l) rel) ls.
 Proof.
-  intros k v l. unfold kind_of, link_matches, eval_kind. destruct (mem_str k LIST_VALUED_ATTRS); [reflexivity|].
-  destruct (String.eqb k "href") eqn:E; [|reflexivity].
-  unfold link_getattr. rewrite E. reflexivity.
+  induction rel as [|[k v] rel IH]; intro ls; cbn [fold_right forallb fst snd].
+  - induction ls as [|l ls IHl]; [reflexivity|]. cbn [filter]. rewrite <- IHl. reflexivity.
+  - rewrite IH. unfold filter_links. induction ls as [|l ls IHl]; [reflexivity|]. cbn [filter].
+    destruct (forallb (fun kv : string * string => link_matches (fst kv) (snd kv) l) rel); cbn [filter andb].
+    + destruct (link_matches k v l); rewrite IHl; reflexivity.
+    + rewrite andb_false_r. exact IHl.
 Qed.
-Lemma all_kinds_same : forall kds kd k v l b, kds <> [] -> Forall (fun x => x = kd) kds -> eval_kind kd k v l = Ok b -> all_kinds kds k v l = Ok b.
-Proof.
-  induction kds as [|x kds IH]; intros kd k v l b Hne HF He; [congruence|].
-  inversion HF as [|? ? Hx HF']; subst. cbn [all_kinds]. rewrite He. cbn [bind]. destruct b; [|reflexivity].
-  destruct kds as [|y kds']; [reflexivity|]. apply (IH kd k v l true); [discriminate | exact HF' | exact He].
-Qed.
-Lemma filter_m_pure : forall (f : link -> M bool) (g : link -> bool) ls, (forall l, f l = Ok (g l)) -> filter_m f ls = Ok (filter g ls).
-Proof.
-  intros f g ls H. induction ls as [|l ls IH]; [reflexivity|]. cbn [filter_m filter]. rewrite H, IH. cbn [bind]. destruct (g l); reflexivity.
-Qed.
-
-(* no relevant query (none at all, or only queries without "="): the listing plus the optional impl-info link *)
+(* the answer is the listing (plus impl-info), in order, restricted to the links that satisfy EVERY criterion *)
+Lemma wkc_is_filter : forall ls impl qs,
+  wkc_render_get ls impl qs =
+  Ok (filter (fun l => forallb (fun kv : string * string => link_matches (fst kv) (snd kv) l) (relevant qs)) (ls ++ impl_info_links impl)).
+Proof. intros ls impl qs. unfold wkc_render_get. rewrite fold_filter_forallb. reflexivity. Qed.
 Lemma wkc_no_filter : forall ls impl, wkc_render_get ls impl [] = Ok (ls ++ impl_info_links impl).
 Proof. reflexivity. Qed.
 Lemma wkc_no_relevant : forall ls impl qs, relevant qs = [] -> wkc_render_get ls impl qs = Ok (ls ++ impl_info_links impl).
 Proof. intros ls impl qs H. unfold wkc_render_get. rewrite H. reflexivity. Qed.
-(* exactly one relevant query: the single-filter semantics *)
 Lemma wkc_single : forall ls impl qs k v, relevant qs = [(k, v)] ->
   wkc_render_get ls impl qs = Ok (filter_links k v (ls ++ impl_info_links impl)).
-Proof.
-  intros ls impl qs k v H. unfold wkc_render_get. rewrite H. cbn [rev app map fst]. unfold filter_links.
-  apply filter_m_pure. intro l. cbn [all_kinds]. rewrite eval_kind_own. cbn [bind]. destruct (link_matches k v l); reflexivity.
-Qed.
-(* several relevant queries whose names select the same branch of the code (e.g. ?rt=..&if=.., or ?sz=..&title=..):
-   every collected filter evaluates the LAST criterion — the earlier criteria are lost (late-bound closure variables) *)
-Lemma wkc_several_same_kind_is_last : forall ls impl qs rel k v, relevant qs = rel ++ [(k, v)] ->
-  Forall (fun kv : string * string => kind_of (fst kv) = kind_of k) rel ->
-  wkc_render_get ls impl qs = Ok (filter_links k v (ls ++ impl_info_links impl)).
-Proof.
-  intros ls impl qs rel k v H HF. unfold wkc_render_get. rewrite H, rev_app_distr. cbn [rev app]. unfold filter_links.
-  apply filter_m_pure. intro l. apply (all_kinds_same _ (kind_of k)).
-  - rewrite map_app. cbn [map fst]. rewrite rev_app_distr. discriminate.
-  - apply Forall_rev. rewrite map_app. apply Forall_app. split; [|repeat constructor].
-    apply Forall_forall. intros x Hx. apply in_map_iff in Hx. destruct Hx as [kv [E Hin]]. subst x.
-    apply (proj1 (Forall_forall _ _) HF kv Hin).
-  - apply eval_kind_own.
-Qed.
-(* the statement the code intends — conjunction of all criteria — holds when at most one query is a filter *)
-Lemma wkc_conjunction_at_most_one : forall ls impl qs r, (List.length (relevant qs) <= 1)%nat -> wkc_render_get ls impl qs = Ok r ->
+Proof. intros ls impl qs k v H. unfold wkc_render_get. rewrite H. reflexivity. Qed.
+(* conjunction of all criteria, for any number of Uri-Query options *)
+Lemma wkc_conjunction : forall ls impl qs r, wkc_render_get ls impl qs = Ok r ->
   forall l, In l r <-> In l (ls ++ impl_info_links impl) /\ forall k v, In (k, v) (relevant qs) -> Matches k v l.
 Proof.
-  intros ls impl qs r Hlen H l. destruct (relevant qs) as [|[k v] [|kv2 rest]] eqn:E; [| |simpl in Hlen; lia].
-  - rewrite (wkc_no_relevant _ _ _ E) in H. inversion H; subst. split; [intro Hin; split; [exact Hin | intros k v []] | intros [Hin _]; exact Hin].
-  - rewrite (wkc_single _ _ _ _ _ E) in H. inversion H; subst. rewrite filter_links_spec. split.
-    + intros [Hin Hm]. split; [exact Hin|]. intros k' v' [Ekv|[]]. inversion Ekv; subst. exact Hm.
-    + intros [Hin Hm]. split; [exact Hin | apply Hm; left; reflexivity].
+  intros ls impl qs r H l. rewrite wkc_is_filter in H. inversion H; subst. rewrite filter_In, forallb_forall. split.
+  - intros [Hin Hall]. split; [exact Hin|]. intros k v Hkv. apply link_matches_spec. apply (Hall (k, v) Hkv).
+  - intros [Hin Hall]. split; [exact Hin|]. intros [k v] Hkv. apply link_matches_spec. apply Hall. exact Hkv.
 Qed.
-Lemma wkc_total_at_most_one : forall ls impl qs, (List.length (relevant qs) <= 1)%nat -> exists r, wkc_render_get ls impl qs = Ok r.
-Proof.
-  intros ls impl qs Hlen. destruct (relevant qs) as [|[k v] [|kv2 rest]] eqn:E; [| |simpl in Hlen; lia].
-  - rewrite (wkc_no_relevant _ _ _ E). eauto.
-  - rewrite (wkc_single _ _ _ _ _ E). eauto.
-Qed.
+Lemma wkc_total : forall ls impl qs, exists r, wkc_render_get ls impl qs = Ok r.
+Proof. intros. rewrite wkc_is_filter. eauto. Qed.
 Lemma relevant_in : forall qs k v, In (k, v) (relevant qs) <-> exists q, In q qs /\ split_eq q = Some (k, v).
 Proof.
   induction qs as [|q qs IH]; intros k v; cbn [relevant].
